@@ -7,8 +7,8 @@
    Numbers.  Every finite binary64 value is an integer multiple of 2^-1074, so a finite double is
    modelled by the integer [z] with value z * 2^-1074 ("units"); comparisons of doubles are
    comparisons of these integers, sums of doubles are integer sums followed by the IEEE
-   round-to-nearest-even step [rnd].  int64 values stay plain integers; they are converted to
-   double ([long_key]) exactly where the C++ does (the comparison against a boundary). *)
+   round-to-nearest-even step [rnd].  int64 values stay plain integers; they are compared with the
+   boundaries the way the int64 overload of BucketBinarySearch does ([long_lt]). *)
 From V Require Export Base.Tok.
 From V Require Import Gen.Consts.
 Local Open Scope Z_scope.
@@ -94,13 +94,21 @@ Definition xadd (x y : fsum) : fsum :=
   | _, _ => SNaN
   end.
 
-(* static_cast<double>(int64) in units: what `*it < value` compares a boundary with *)
-Definition long_key (s : Z) (v : Z) : Z :=
-  match rnd s (Z.shiftl v s) with SFin z => z | _ => 0 end.
+(* - double *)
+Definition fneg (x : fsum) : fsum :=
+  match x with SFin z => SFin (- z) | SPInf => SNInf | SNInf => SPInf | SNaN => SNaN end.
+
+(* boundary < value for an int64 value, as the int64 overload of BucketBinarySearch decides it (b in units of
+   2^-s): a boundary >= 2^63 is not below any int64, one < -2^63 below every int64, otherwise
+   static_cast<int64_t>(std::floor(boundary)) < value *)
+Definition long_lt (s b v : Z) : bool :=
+  if Z.shiftl (2 ^ 63) s <=? b then false
+  else if b <? - Z.shiftl (2 ^ 63) s then true
+  else Z.shiftr b s <? v.
 
 (* ------------------------------------------------------------------ the two instrument kinds *)
 Record ops := mkOps {
-  o_key : Z -> Z;                  (* value -> what is compared with the boundaries (units) *)
+  o_lt : Z -> Z -> bool;           (* boundary (units) < value, as the bucket search compares them *)
   o_add : fsum -> fsum -> fsum;    (* sum_ + value, sum_ + sum_ *)
   o_min0 : Z;                      (* initial min_ *)
   o_max0 : Z;                      (* initial max_ *)
@@ -109,14 +117,14 @@ Record ops := mkOps {
 }.
 
 Definition long_ops (s : Z) : ops :=
-  mkOps (long_key s) xadd kHistMinInitLong kHistMaxInitLong
+  mkOps (long_lt s) xadd kHistMinInitLong kHistMaxInitLong
         (map (to_scale s) kHistDefaultBoundsLong) kHistRecordMinMaxDefaultLong.
 Definition dbl_ops (s : Z) : ops :=
-  mkOps (fun v => v) (fadd s) (to_scale s kHistMinInitDouble) (to_scale s kHistMaxInitDouble)
+  mkOps (fun b v => b <? v) (fadd s) (to_scale s kHistMinInitDouble) (to_scale s kHistMaxInitDouble)
         (map (to_scale s) kHistDefaultBoundsDouble) kHistRecordMinMaxDefaultDouble.
 (* reference for the proofs: the double instrument with exact sums *)
 Definition dblx_ops (s : Z) : ops :=
-  mkOps (fun v => v) xadd (to_scale s kHistMinInitDouble) (to_scale s kHistMaxInitDouble)
+  mkOps (fun b v => b <? v) xadd (to_scale s kHistMinInitDouble) (to_scale s kHistMaxInitDouble)
         (map (to_scale s) kHistDefaultBoundsDouble) kHistRecordMinMaxDefaultDouble.
 
 (* ------------------------------------------------------------------ HistogramPointData + the aggregation's own flag *)
@@ -140,8 +148,9 @@ Definition eff_cfg (o : ops) (c : option cfg) : cfg :=
 Definition new_hist (o : ops) (c : cfg) : hist :=
   mkH (c_bounds c) (repeat 0 (S (length (c_bounds c)))) 0 (SFin 0) (o_min0 o) (o_max0 o) (c_rmm c) (c_rmm c).
 
-(* std::lower_bound as libstdc++ runs it: [first, first+len) halves until empty *)
-Fixpoint lower_bound (fuel : nat) (bs : list Z) (first len : nat) (k : Z) : nat :=
+(* std::lower_bound as libstdc++ runs it: [first, first+len) halves until empty; [below b] is the
+   comparison "boundary b < value" *)
+Fixpoint lower_bound (fuel : nat) (bs : list Z) (first len : nat) (below : Z -> bool) : nat :=
   match fuel with
   | O => first
   | S f =>
@@ -149,11 +158,13 @@ Fixpoint lower_bound (fuel : nat) (bs : list Z) (first len : nat) (k : Z) : nat 
       else
         let half := Nat.div2 len in
         let mid := (first + half)%nat in
-        if nth mid bs 0 <? k then lower_bound f bs (S mid) (len - half - 1) k
-        else lower_bound f bs first half k
+        if below (nth mid bs 0) then lower_bound f bs (S mid) (len - half - 1) below
+        else lower_bound f bs first half below
   end.
 (* BucketBinarySearch *)
-Definition bucket (bs : list Z) (k : Z) : nat := lower_bound (S (length bs)) bs 0 (length bs) k.
+Definition bucketp (bs : list Z) (below : Z -> bool) : nat := lower_bound (S (length bs)) bs 0 (length bs) below.
+(* ... with the plain comparison against a key in units *)
+Definition bucket (bs : list Z) (k : Z) : nat := bucketp bs (fun b => b <? k).
 
 (* counts_ and count_ are uint64_t *)
 Definition U64 : Z := 2 ^ 64.
@@ -169,7 +180,7 @@ Fixpoint incr (i : nat) (l : list Z) : list Z :=
 (* Aggregate(value) *)
 Definition aggregate (o : ops) (h : hist) (v : Z) : hist :=
   mkH (h_bounds h)
-      (incr (bucket (h_bounds h) (o_key o v)) (h_counts h))
+      (incr (bucketp (h_bounds h) (fun b => o_lt o b v)) (h_counts h))
       (wadd (h_count h) 1)
       (o_add o (h_sum h) (SFin v))
       (if h_rmm_mem h then Z.min (h_min h) v else h_min h)
@@ -195,13 +206,13 @@ Definition merge (o : ops) (cur delta : hist) : hist :=
       (if r then Z.max (h_max cur) (h_max delta) else o_max0 o)
       r (h_rmm_mem cur).
 
-(* cur.Diff(next): HistogramDiff fills counts_ and count_ only (uint64 arithmetic); sum_, min_, max_
-   keep the constructor's values *)
+(* cur.Diff(next): HistogramDiff subtracts counts_ and count_ (uint64 arithmetic) and sum_; min_, max_
+   keep the constructor's values, min/max are switched off *)
 Definition diff (o : ops) (cur next : hist) : hist :=
   mkH (h_bounds cur)
       (zip_with (fun c n => (n - c) mod U64) (h_counts cur) (h_counts next))
       ((h_count next - h_count cur) mod U64)
-      (SFin 0) (o_min0 o) (o_max0 o) false (h_rmm_mem cur).
+      (o_add o (h_sum next) (fneg (h_sum cur))) (o_min0 o) (o_max0 o) false (h_rmm_mem cur).
 
 (* ------------------------------------------------------------------ a register machine over aggregations *)
 Definition NREG : nat := 8.
